@@ -43,6 +43,10 @@ def run(chk, tier, seed, replay):
         chk.note("nonvacuity", "TLC refutes Pure for the memo designs 'asimpl' (reference + allclose) and 'snapfirst'")
         out, r = generate(chk, "histories", "ApplyCache", "MC_ApplyCache_fixed.cfg", s, workers=16)
         behs = list(tlc.iter_emitted(out))
+        # complete state graph of the memo model (no depth bound): Pure at every reachable state, one history per transition
+        out3, r3 = generate(chk, "complete_graph", "ApplyCache", "MC_ApplyCache_unb.cfg", s, workers=16)
+        behs += list(tlc.iter_emitted(out3))
+        chk.note("complete_graph", {"distinct_states": r3.distinct, "transitions": r3.generated})
         if tier == "thorough":
             out2, r2 = generate(chk, "histories_sim", "ApplyCache", "MC_ApplyCache_sim.cfg", s, workers=16, simulate=320, depth=8, seed=seed + 1)
             behs += list(tlc.iter_emitted(out2))
